@@ -86,6 +86,12 @@ CHECKS = {
         'and it is stored with no flag (C13_and_or_xor, C13_pattern_of_result); ~ (C13_not), ~~x = x, ~x = -x - LSB for signed x, rejection of different word lengths. Tie: all code pairs of small words with every signedness combination, wide words '
         '{16,31,32,33,63,64,65,100,128}, Fxp and integer-mask operands on either side, De Morgan on the implementation, malformed stream.',
    design='7/C13', technique='Coq proof (bit-level, all widths) + differential correspondence'),
+
+ 'C12': dict(
+   text='Proof (strings, EVERY n_word >= 0 and EVERY integer n_frac): parsing the rendered fxp spelling gives back (signed, n_word, n_frac, complex) (C12_fxp_roundtrip); the Q/UQ spelling round-trips whenever m = n_word - n_frac >= 0 with the sign bit counted in m (C12_q_roundtrip); '
+        'parsing is case-insensitive (C12_case_insensitive); get_dtype(notation) renders the requested notation whatever the configured default (C12_get_dtype). Decimal numerals use the standard library DecimalString/DecimalZ; the two regular expressions are represented by a hand-written matcher '
+        '(alternation order and backtracking of re.match included) that is tied to the real regexes by the correspondence run. Tie: every format with n_word<=24 plus boundary words up to 256 (all words in the thorough tier), n_frac -8..n_word+8, complex suffix, both configured defaults, constructor and resize, Q/UQ/S/U/QU spellings in every case.',
+   design='7/C12', technique='Coq proof of parser/printer round trips + differential correspondence on strings'),
 }
 NA_REASON = 'check not built yet (work in progress; see DESIGN.md section 10 order of work)'
 def main():
